@@ -37,6 +37,22 @@ Theorem C07_exact_is_integral : forall (pts : list pt) (y : Q),
 Proof. exact exact_is_integral. Qed.
 Print Assumptions C07_exact_is_integral.
 
+(* the same for one forecast case of the public pipeline: whenever union grid + fill left no NaN (C17_fill_range01: always for a
+   NaN-free forecast with two thresholds) and the observation is finite, crps_case on the common grid returns these integrals
+   of the filled forecast / weight *)
+Theorem C07_crps_case_is_integral : forall grid ft wt op (c : fcase) (f w : list Q) (y : Q),
+  o_exact op = true -> grid <> [] ->
+  reformat_case grid ft wt op c = (fins f, observed_cdf_line (XFin y) grid, fins w) ->
+  length f = length grid -> length w = length grid ->
+  Cdf.increasing grid = true -> qmem y grid = true ->
+  forall t u o : Q, crps_case grid ft wt op c = (XFin t, XFin u, XFin o) ->
+  let pts := combine (combine grid f) w in
+  is_RInt (fun x => Wstep pts x * (Finterp pts x - RH y x) ^ 2)%R (Q2R (tfirst pts)) (Q2R (tlast pts)) (Q2R t) /\
+  is_RInt (fun x => Wstep pts x * ((1 - RH y x) * (Finterp pts x) ^ 2))%R (Q2R (tfirst pts)) (Q2R (tlast pts)) (Q2R u) /\
+  is_RInt (fun x => Wstep pts x * (RH y x * (Finterp pts x - 1) ^ 2))%R (Q2R (tfirst pts)) (Q2R (tlast pts)) (Q2R o).
+Proof. exact crps_case_is_integral. Qed.
+Print Assumptions C07_crps_case_is_integral.
+
 (* code-faithful exact method = specification sum, for EVERY weight (not only 0/1 steps) and every observation *)
 Theorem C07_exact_code_eq_spec : forall (pts : list pt) (y : Q), Cdf.increasing (map tq pts) = true ->
   let r := crps_exact_line (map tq pts) (fins (map fq pts)) (observed_cdf_line (XFin y) (map tq pts)) (fins (map wq pts)) in
